@@ -98,6 +98,7 @@ pub fn run(ctx: &Ctx) -> Report {
     let mut o = GenOpts::default();
     o.long_steps = ctx.thorough();
     o.onsite_cogen_fuel = true;
+    o.el_cogen_input = true;
     let tally = run_sharded(ctx, total, |_idx, r, t| {
         let mut o = o.clone();
         match r.below(5) {
@@ -137,10 +138,9 @@ pub fn run(ctx: &Ctx) -> Report {
     ];
     Report {
         tally,
-        rule: "generated buildings with non-negative values (PV exporting with and without electric use, ambient / solar surplus, biomass and district carriers, cogeneration with nearby, distant, mixed and on-site (ambient / solar) fuels, both load-matching modes) evaluated at k_exp = 0 with the four regulatory factor sets with or without non-negative user RED1 / RED2; checks RER = ren / (ren + nren) of the reported step B energy, RER in [0, 1], 0 <= RER_onst <= RER_nrb <= RER, all zero when the total is zero; non-trivial = electricity is exported or the three perimeters differ; distinct = distinct (components text, factors, area, mode)".into(),
+        rule: "generated buildings with non-negative values (PV exporting with and without electric use, ambient / solar surplus, biomass and district carriers, cogeneration with nearby, distant, mixed, on-site (ambient / solar) and even electric input, both load-matching modes) evaluated at k_exp = 0 with the four regulatory factor sets with or without non-negative user RED1 / RED2; checks RER = ren / (ren + nren) of the reported step B energy, RER in [0, 1], 0 <= RER_onst <= RER_nrb <= RER, all zero when the total is zero; non-trivial = electricity is exported or the three perimeters differ; distinct = distinct (components text, factors, area, mode)".into(),
         assumptions: vec![
             "cases whose total primary energy is below 1e-3 of the sum of magnitudes of its terms (rounding noise) are counted as degenerate and skipped".into(),
-            "electricity as cogeneration input (physically meaningless) is not generated".into(),
             "ratio slack 2e-6 + 3e-5 * cancellation scale / total".into(),
         ],
         quotas,
